@@ -82,6 +82,7 @@ func (ex *Exec) verifyFunc(key string) error {
 	sp := ex.specs.Funcs[key]
 	ex.curKey = key
 	ex.paths = 0
+	ex.registerSpecCounters()
 	st := &State{ex: ex, heap: map[string]string{}, cnt: map[string]string{}, published: map[string]bool{}, cells: map[string]Val{}}
 	var args []Val
 	for _, p := range fn.Params {
@@ -422,6 +423,11 @@ func cmdCheck(args []string) int {
 			if status == "FAILED" && len(a.Failed) > 0 {
 				f := a.Failed[0]
 				fmt.Printf("      first failing path (%s, %s): %s\n", f.Status, f.Solver, strings.Join(tail(f.Trace, 12), " ; "))
+				if *verbose {
+					for _, ff := range a.Failed {
+						fmt.Printf("      FAILING #%d: %s\n", ff.ID, strings.Join(ff.Trace, " ; "))
+					}
+				}
 			}
 		}
 	}
@@ -727,10 +733,22 @@ func (ex *Exec) funcsUsingSharedSpecs(P string) []string {
 			}
 		}
 		if hit {
-			out = append(out, k)
+			// closures without a contract of their own are verified inline in their parent
+			for fn.Parent() != nil && ex.specs.Funcs[ex.prog.Keys[fn]] == nil {
+				fn = fn.Parent()
+			}
+			out = append(out, ex.prog.Keys[fn])
 		}
 	}
-	return out
+	seen := map[string]bool{}
+	var uniq []string
+	for _, k := range out {
+		if k != "" && !seen[k] {
+			seen[k] = true
+			uniq = append(uniq, k)
+		}
+	}
+	return uniq
 }
 
 // closureEntry: facts about captured variables. With oblige == nil they are assumed (closure
@@ -771,6 +789,44 @@ func (ex *Exec) closureEntry(st *State, pf *Frame, fn *ssa.Function, binds []Val
 				ex.oblige(st, "captures", fmt.Sprintf("%s/closure.%s.%s", parent.key, key, c.name()), c.Labels, g, c, ex.posOf(instr))
 			} else {
 				st.assume(g)
+			}
+		}
+	}
+}
+
+// registerSpecCounters: every counter named by ncalls("...") in any contract exists from the
+// start, so that wildcard havocs (loops, calls) cover it.
+func (ex *Exec) registerSpecCounters() {
+	if ex.countersRegistered {
+		return
+	}
+	ex.countersRegistered = true
+	var walk func(e *SExpr)
+	walk = func(e *SExpr) {
+		if e == nil {
+			return
+		}
+		if e.Op == "call" && e.Name == "ncalls" && len(e.Args) == 1 && e.Args[0].Op == "str" {
+			k := e.Args[0].Str
+			if _, ok := ex.cntInit[k]; !ok {
+				c := "cnt." + smtSym(k) + "_0"
+				ex.cntInit[k] = c
+				ex.sorts[c] = "Int"
+			}
+		}
+		for _, a := range e.Args {
+			walk(a)
+		}
+	}
+	for _, sp := range ex.specs.Funcs {
+		for _, cs := range [][]*Clause{sp.Requires, sp.Ensures, sp.AtCall, sp.Captures} {
+			for _, c := range cs {
+				walk(c.Expr)
+			}
+		}
+		for _, cs := range sp.LoopInv {
+			for _, c := range cs {
+				walk(c.Expr)
 			}
 		}
 	}
